@@ -5,7 +5,7 @@ V = os.path.dirname(os.path.dirname(os.path.abspath(__file__)))
 sys.path.insert(0, os.path.join(V, 'tools'))
 import vx
 for u in sys.argv[1:]:
-    j = vx.run_unit(os.path.join(V, 'vx', 'units', u + '.vt'), os.path.join(V, '.cache', 'vx-work'))
+    j = vx.run_unit(os.path.join(V, 'vx', 'units', u + '.vt'), os.path.join(V, '.cache', 'vx-work' + os.environ.get('VERIF_WORK_SUFFIX', '')))
     print(u, j['status'], 'obl=%d' % len(j.get('obligations', [])), 'wall=%.1f' % j.get('wall', 0), 'degraded=%s' % j.get('degraded'), (j.get('reason') or j.get('error') or '')[:600])
     for f in j.get('failures', []):
         print('   FAIL', f['function'], f['labels'], f['message'].split('\n')[0], f['where'])
